@@ -7,9 +7,12 @@ Reading of "no harm": (a) no node / relationship write before an integrity failu
 created or overwritten outside the output directory, (c) no partial output left in the destination on
 failure, (d) an encrypted archive opens only with the matching key.
 
-Clause (c) FAILS for plain `UnpackTar` and for the direct `UnpackEncryptedCollectionArchive` (finding F11,
-reproduced on the real code by the `c20` suite): the models reproduce it, `c20_full_refuted` refutes the
-full statement by witness, `c20_fixed` proves it for the staged variants, `c20_partial` states what holds now.
+Clause (c) FAILED for plain `UnpackTar` (finding F11, repaired: `UnpackTarWithOptions` now stages and promotes;
+the live model `unpackPlain` is the staged protocol, `unpack_plain_fixed` is the live clause-(c) theorem for
+it, and `unpack_plain_partial_output_old` keeps the refutation for the old unstaged definition) and still
+fails for the direct `UnpackEncryptedCollectionArchive` (reproduced on the real code by the `c20` suite):
+the model reproduces it, `c20_full_refuted` refutes the full statement by that witness, `c20_fixed` proves it
+with the staged variant in its place, `c20_partial` states what holds now.
 -/
 import Dawgs.Proofs.C20
 namespace Dawgs.C20.Props
@@ -427,9 +430,11 @@ def f11Ok : Entry := { name := ['o', 'k', '.', 't', 'x', 't'], typ := 48, size :
 def f11Evil : Entry := { name := ['.', '.', '/', 'e', 'v', 'i', 'l', '.', 't', 'x', 't'], typ := 48, size := 2, body := [104, 105] }
 def f11Out : Str := ['/', 'o']
 
-/-- F11 (plain `UnpackTar`), the witness of DESIGN.md §5: entries `ok.txt`, `../evil.txt` into an absent
-destination: the traversal is refused, nothing escapes, but `ok.txt` stays behind. -/
-theorem unpack_plain_partial_output : ¬ NoPartialOutput (unpackPlain (fun _ => false) false f11Out) := by
+/-- F11 as it was (plain `UnpackTar` before the repair, `unpackPlainOld`), the witness of DESIGN.md §5:
+entries `ok.txt`, `../evil.txt` into an absent destination: the traversal is refused, nothing escapes, but
+`ok.txt` stays behind. If the staging of `UnpackTarWithOptions` is ever removed again, `Tie.unpack_stages`
+breaks and this is the behaviour that returns (corpus case `c20_f11_plain.ops`). -/
+theorem unpack_plain_partial_output_old : ¬ NoPartialOutput (unpackPlainOld (fun _ => false) false f11Out) := by
   intro h
   have := h [.entry f11Ok, .entry f11Evil] { out := none } rfl rfl (by decide)
   revert this
@@ -444,13 +449,14 @@ theorem unpack_enc_direct_partial_output :
   revert this
   decide
 
-/-- F11 repaired: the plain path run through the staging protocol leaves the destination untouched on
-every failure (and `staging_promote_atomic` gives the rest). -/
+/-- Clause (c) for the plain path (live): `UnpackTar` leaves the destination untouched on every failure —
+whatever the entries, the refusals of the operating system and the force flag (and `staging_promote_atomic`
+gives the intermediate states and the success case). -/
 theorem unpack_plain_fixed (refuse : Str → Bool) (force : Bool) (stagePath : Str) :
-    NoPartialOutput (unpackPlainFixed refuse force stagePath) := by
+    NoPartialOutput (unpackPlain refuse force stagePath) := by
   intro items d0 hs hb he
   have := (staging_promote_atomic refuse (fun _ => true) true force stagePath items d0 ⟨hs, hb⟩).2.1 he
-  unfold unpackPlainFixed
+  unfold unpackPlain
   rw [this]
 
 /-- the staged `Unpack` satisfies clause (c) for every validator and frame outcome -/
@@ -491,25 +497,24 @@ def C20_core : Prop :=
 /-- The property at the strength of properties.jsonl: the core plus clause (c) for EVERY unpack entry point. -/
 def C20_full : Prop :=
   C20_core ∧
-  (∀ refuse force outPath, NoPartialOutput (unpackPlain refuse force outPath)) ∧
+  (∀ refuse force stagePath, NoPartialOutput (unpackPlain refuse force stagePath)) ∧
   (∀ refuse validate tailOk outPath, NoPartialOutput (unpackEncDirect refuse validate tailOk outPath))
 
-/-- what holds for the code as it is: the core, and for the two unstaged entry points the weaker
-"whatever is left behind is whole and inside": every file in the destination after a failure is the complete
-body of a regular entry at a sanitised path under the output directory. -/
+/-- what holds for the code as it is: the core, clause (c) for the plain path, and for the one remaining
+unstaged entry point (the direct `UnpackEncryptedCollectionArchive`) the weaker "whatever is left behind is
+whole and inside": every file in the destination after a failure is the complete body of a regular entry at
+a sanitised path under the output directory. -/
 def C20_partial : Prop :=
   C20_core ∧
-  (∀ refuse force outPath items d0, isAbs outPath = true →
-      ∀ d ∈ (unpackPlain refuse force outPath items d0).trace, ∀ pb ∈ files d.out, pb ∈ files d0.out ∨
-        (WrittenBy outPath items pb ∧ ∃ rel, safeRel rel = true ∧ pb.1 = joinUnder (pathClean outPath) rel)) ∧
+  (∀ refuse force stagePath, NoPartialOutput (unpackPlain refuse force stagePath)) ∧
   (∀ refuse validate tailOk outPath items d0, isAbs outPath = true →
       ∀ d ∈ (unpackEncDirect refuse validate tailOk outPath items d0).trace, ∀ pb ∈ files d.out, pb ∈ files d0.out ∨
         (WrittenBy outPath items pb ∧ ∃ rel, safeRel rel = true ∧ pb.1 = joinUnder (pathClean outPath) rel))
 
-/-- the full statement with the two unstaged entry points replaced by their staged repairs -/
+/-- the full statement with the remaining unstaged entry point replaced by its staged repair (`Unpack`) -/
 def C20_fixed : Prop :=
   C20_core ∧
-  (∀ refuse force stagePath, NoPartialOutput (unpackPlainFixed refuse force stagePath)) ∧
+  (∀ refuse force stagePath, NoPartialOutput (unpackPlain refuse force stagePath)) ∧
   (∀ refuse validate tailOk force stagePath, NoPartialOutput (unpackStaged refuse validate tailOk force stagePath))
 
 theorem c20_core : C20_core := by
@@ -549,10 +554,11 @@ theorem c20_core : C20_core := by
   · intro refuse validate tailOk force stagePath
     exact unpack_staged_no_partial refuse validate tailOk force stagePath
 
-/-- The full statement is false for the code as it is (F11). -/
+/-- The full statement is still false for the code as it is: the direct `UnpackEncryptedCollectionArchive`
+(the only remaining false clause; the plain path is repaired). -/
 theorem c20_full_refuted : ¬ C20_full := by
   intro h
-  exact unpack_plain_partial_output (h.2.1 _ _ _)
+  exact unpack_enc_direct_partial_output (h.2.2 _ _ _ _)
 
 theorem c20_fixed : C20_fixed :=
   ⟨c20_core, fun refuse force stagePath => unpack_plain_fixed refuse force stagePath,
@@ -567,18 +573,7 @@ theorem c20_partial : C20_partial := by
     rcases h2 with h | h
     · cases h
     · exact h
-  refine ⟨c20_core, ?_, ?_⟩
-  · intro refuse force outPath items d0 habs d hd pb hpb
-    unfold unpackPlain at hd
-    split at hd
-    · simp at hd; subst hd; exact .inl hpb
-    · simp at hd
-      rcases hd with h | h | h
-      · subst h; exact .inl hpb
-      · subst h; simp [files] at hpb
-      · subst h
-        simp only [files, Option.getD_some] at hpb
-        exact .inr (hmem refuse outPath items habs pb hpb)
+  refine ⟨c20_core, fun refuse force stagePath => unpack_plain_fixed refuse force stagePath, ?_⟩
   · intro refuse validate tailOk outPath items d0 habs d hd pb hpb
     have key : d = d0 ∨ d = { d0 with out := some [] } ∨
         d = { d0 with out := some (extractLoop refuse outPath items ⟨[], []⟩).st.fs } := by
@@ -632,9 +627,9 @@ example : readFrames (symAead Nat (Aad Nat)) 1 7 0 (writeFrames (symAead Nat (Aa
     = .error .trailing := by rfl
 
 -- the staged path on the F11 witness leaves nothing behind; on a good archive it delivers it
-example : (unpackPlainFixed (fun _ => false) false ['/', 's'] [.entry f11Ok, .entry f11Evil] { out := none }).final { out := none }
+example : (unpackPlain (fun _ => false) false ['/', 's'] [.entry f11Ok, .entry f11Evil] { out := none }).final { out := none }
     = { out := none } := by rfl
-example : ((unpackPlainFixed (fun _ => false) false ['/', 's'] [.entry f11Ok] { out := none }).final { out := none }).out
+example : ((unpackPlain (fun _ => false) false ['/', 's'] [.entry f11Ok] { out := none }).final { out := none }).out
     = some [(['/', 's', '/', 'o', 'k', '.', 't', 'x', 't'], [104, 105])] := by decide
 
 /-- a small honest Load environment: digests are the bytes themselves (trivially collision-free), records are bytes -/
